@@ -3,25 +3,34 @@
 (* C15: a subscription delivers one correct result per source event, then  *)
 (* closes.  Written from the property statement; the actions are the       *)
 (* channel operations / critical sections of a forwarder that sits between *)
-(* an event source and a consumer.                                         *)
+(* an event source and a consumer, and of the executors it starts.         *)
 (*                                                                         *)
 (* Processes                                                               *)
 (*   Source     emits events e1..en (payload class chosen freely, among    *)
-(*              them classes whose field resolution fails) over an         *)
-(*              UNBUFFERED channel, and may close that channel;            *)
+(*              them classes whose field resolution fails and a class      *)
+(*              whose resolver is slow) over an UNBUFFERED channel, and    *)
+(*              may close that channel;                                    *)
 (*   Forwarder  sets the subscription up (parse, validate, subscribe); then*)
 (*              loops: select { context done | event | source closed };    *)
-(*              maps the event through Execute; sends the result on the    *)
-(*              UNBUFFERED result channel; closes the result channel when  *)
-(*              it leaves;                                                 *)
+(*              maps the event through Execute: STARTS AN EXECUTOR for it  *)
+(*              and waits for { the executor's hand-off | context done };  *)
+(*              sends the result on the UNBUFFERED result channel; closes  *)
+(*              the result channel when it leaves;                         *)
+(*   Executor i (one per event, started by the forwarder's map step) runs  *)
+(*              the resolvers of event i - for an event of class "slow"    *)
+(*              the resolver PARKS until the environment releases it - and *)
+(*              then hands its result to the forwarder through its own     *)
+(*              hand-off channel of capacity Cap (exactly one send);       *)
 (*   Consumer   receives results (promptly, slowly = any interleaving, or  *)
 (*              stops reading for ever);                                   *)
 (*   Canceller  cancels the context at any time, also before the           *)
-(*              forwarder has subscribed.                                  *)
+(*              forwarder has subscribed and while a resolver is parked;   *)
+(*   Releaser   lets a parked resolver return (any time, or never).        *)
 (*                                                                         *)
 (* An unbuffered channel is a rendezvous: the sender's and the receiver's  *)
 (* step are ONE action (SrcEmit = source send + forwarder receive,         *)
-(* Deliver = forwarder send + consumer receive).                           *)
+(* Deliver = forwarder send + consumer receive, and for Cap = 0 ExecSend = *)
+(* executor send + forwarder receive).                                     *)
 (*                                                                         *)
 (* Results are not interpreted here: the result of executing the           *)
 (* subscription's selection with event number i of class c as root value   *)
@@ -32,44 +41,59 @@
 (*          the context (FwdSendCtx);                                      *)
 (* Design = "asis":     plain send.  TLC shows that NoLeak fails (named    *)
 (*          deviation D_C15_send_ignores_ctx).                             *)
+(* Cap >= 1 (intended): the executor's single send never blocks;           *)
+(* Cap = 0:  the hand-off is a rendezvous.  TLC shows that RestAfterCancel *)
+(*          and NoLeak fail: a forwarder that left on "context done" never *)
+(*          receives, the executor stays blocked in its send for ever      *)
+(*          (named deviation D_C15_handoff_unbuffered).                    *)
 (***************************************************************************)
 EXTENDS Naturals, Sequences, FiniteSets, TLC
 
 CONSTANTS MaxEv,      \* the source emits at most MaxEv events
           Classes,    \* payload classes
           Modes,      \* request kinds explored: "ok", "parse", "validate", "suberr"
-          Design      \* "intended" | "asis"
+          Design,     \* "intended" | "asis"
+          Cap         \* capacity of an executor's hand-off channel
 
 VARIABLES mode,       \* kind of request (fixed per behaviour)
           cancelled,  \* the context is done
           sent,       \* classes of the events the source has handed over so far
           srcClosed,  \* the source closed its channel
-          fpc,        \* forwarder: "start" "sel" "map" "send" "exit" "done"
+          fpc,        \* forwarder: "start" "sel" "map" "wait" "send" "exit" "done"
           cur,        \* the event / result the forwarder holds
           last,       \* the forwarder leaves after sending cur (request-level error)
           delivered,  \* results received by the consumer, in order
           outClosed,  \* the result channel is closed
           cstop,      \* the consumer stopped reading for ever
-          seenClosed  \* the consumer observed the closed result channel
+          seenClosed, \* the consumer observed the closed result channel
+          epc,        \* executor of event i: "idle" (not started) "run" "parked" "send" "done"
+          hbuf        \* the hand-off channel of executor i holds its result (Cap >= 1 only)
 
-vars == <<mode, cancelled, sent, srcClosed, fpc, cur, last, delivered, outClosed, cstop, seenClosed>>
+vars == <<mode, cancelled, sent, srcClosed, fpc, cur, last, delivered, outClosed, cstop, seenClosed, epc, hbuf>>
+xvars == <<epc, hbuf>>
+
+Evs == 1..MaxEv
 
 None   == [i |-> 0, c |-> "-"]
 ErrRes == [i |-> 0, c |-> "reqerr"]
 Res(i, c) == [i |-> i, c |-> c]      \* Execute(selection, root value = event i of class c)
+Parks(c) == c = "slow"               \* the class whose resolver parks until it is released
 
 TypeOK ==
   /\ mode \in Modes /\ cancelled \in BOOLEAN /\ srcClosed \in BOOLEAN
   /\ sent \in Seq(Classes) /\ Len(sent) <= MaxEv
-  /\ fpc \in {"start", "sel", "map", "send", "exit", "done"}
+  /\ fpc \in {"start", "sel", "map", "wait", "send", "exit", "done"}
   /\ last \in BOOLEAN /\ outClosed \in BOOLEAN /\ cstop \in BOOLEAN /\ seenClosed \in BOOLEAN
   /\ Len(delivered) <= MaxEv + 1
+  /\ epc \in [Evs -> {"idle", "run", "parked", "send", "done"}]
+  /\ hbuf \in [Evs -> BOOLEAN]
 
 Init ==
   /\ mode \in Modes
   /\ cancelled = FALSE /\ sent = <<>> /\ srcClosed = FALSE
   /\ fpc = "start" /\ cur = None /\ last = FALSE
   /\ delivered = <<>> /\ outClosed = FALSE /\ cstop = FALSE /\ seenClosed = FALSE
+  /\ epc = [i \in Evs |-> "idle"] /\ hbuf = [i \in Evs |-> FALSE]
 
 \* ---------------------------------------------------------------- forwarder
 \* parse + validate + call the field's subscribe function
@@ -78,13 +102,13 @@ FwdSetup ==
   /\ IF mode = "ok"
        THEN fpc' = "sel" /\ UNCHANGED <<cur, last>>
        ELSE fpc' = "send" /\ cur' = ErrRes /\ last' = TRUE
-  /\ UNCHANGED <<mode, cancelled, sent, srcClosed, delivered, outClosed, cstop, seenClosed>>
+  /\ UNCHANGED <<mode, cancelled, sent, srcClosed, delivered, outClosed, cstop, seenClosed, xvars>>
 
 \* select: case <-ctx.Done()
 FwdSelCtx ==
   /\ fpc = "sel" /\ cancelled
   /\ fpc' = "exit"
-  /\ UNCHANGED <<mode, cancelled, sent, srcClosed, cur, last, delivered, outClosed, cstop, seenClosed>>
+  /\ UNCHANGED <<mode, cancelled, sent, srcClosed, cur, last, delivered, outClosed, cstop, seenClosed, xvars>>
 
 \* select: case ev := <-source  (rendezvous with the source's send of an event of class c)
 SrcEmit(c) ==
@@ -92,23 +116,38 @@ SrcEmit(c) ==
   /\ sent' = Append(sent, c)
   /\ cur' = Res(Len(sent) + 1, c)
   /\ fpc' = "map"
-  /\ UNCHANGED <<mode, cancelled, srcClosed, last, delivered, outClosed, cstop, seenClosed>>
+  /\ UNCHANGED <<mode, cancelled, srcClosed, last, delivered, outClosed, cstop, seenClosed, xvars>>
 
 \* select: case _, more := <-source with more = false
 FwdSelClosed ==
   /\ fpc = "sel" /\ srcClosed
   /\ fpc' = "exit"
-  /\ UNCHANGED <<mode, cancelled, sent, srcClosed, cur, last, delivered, outClosed, cstop, seenClosed>>
+  /\ UNCHANGED <<mode, cancelled, sent, srcClosed, cur, last, delivered, outClosed, cstop, seenClosed, xvars>>
 
-\* res := Execute(selection, root = event)
-\* The execution runs under the subscription's context: by C16 an execution whose context is
-\* done yields either the complete response or exactly the context's error (class "ctxerr").
+\* res := Execute(selection, root = event): the execution is carried out by a separate process;
+\* this step starts it (go func() { ... handoff <- result }()) ...
 FwdMap ==
   /\ fpc = "map"
+  /\ fpc' = "wait"
+  /\ epc' = [epc EXCEPT ![cur.i] = "run"]
+  /\ UNCHANGED <<mode, cancelled, sent, srcClosed, cur, last, delivered, outClosed, cstop, seenClosed, hbuf>>
+
+\* ... and then the forwarder waits: select { case res := <-handoff | case <-ctx.Done() }.
+\* case res := <-handoff, buffered hand-off (for Cap = 0 see ExecSend)
+FwdRecv ==
+  /\ fpc = "wait" /\ hbuf[cur.i]
+  /\ hbuf' = [hbuf EXCEPT ![cur.i] = FALSE]
   /\ fpc' = "send"
-  /\ \/ cur' = cur
-     \/ cancelled /\ cur' = [cur EXCEPT !.c = "ctxerr"]
-  /\ UNCHANGED <<mode, cancelled, sent, srcClosed, last, delivered, outClosed, cstop, seenClosed>>
+  /\ UNCHANGED <<mode, cancelled, sent, srcClosed, cur, last, delivered, outClosed, cstop, seenClosed, epc>>
+
+\* case <-ctx.Done(): the execution runs under the subscription's context; by C16 an execution whose
+\* context is done yields either the complete response or exactly the context's error (class
+\* "ctxerr").  The executor is NOT waited for: it goes on and will still do its send.
+FwdWaitCtx ==
+  /\ fpc = "wait" /\ cancelled
+  /\ cur' = [cur EXCEPT !.c = "ctxerr"]
+  /\ fpc' = "send"
+  /\ UNCHANGED <<mode, cancelled, sent, srcClosed, last, delivered, outClosed, cstop, seenClosed, xvars>>
 
 \* out <- res  (rendezvous with the consumer's receive)
 Deliver ==
@@ -116,7 +155,7 @@ Deliver ==
   /\ delivered' = Append(delivered, cur)
   /\ cur' = None
   /\ fpc' = IF last THEN "exit" ELSE "sel"
-  /\ UNCHANGED <<mode, cancelled, sent, srcClosed, last, outClosed, cstop, seenClosed>>
+  /\ UNCHANGED <<mode, cancelled, sent, srcClosed, last, outClosed, cstop, seenClosed, xvars>>
 
 \* intended design only: select { case out <- res: | case <-ctx.Done(): return }
 FwdSendCtx ==
@@ -124,55 +163,97 @@ FwdSendCtx ==
   /\ fpc = "send" /\ cancelled
   /\ cur' = None
   /\ fpc' = "exit"
-  /\ UNCHANGED <<mode, cancelled, sent, srcClosed, last, delivered, outClosed, cstop, seenClosed>>
+  /\ UNCHANGED <<mode, cancelled, sent, srcClosed, last, delivered, outClosed, cstop, seenClosed, xvars>>
 
 \* deferred close(out); the goroutine ends
 FwdClose ==
   /\ fpc = "exit"
   /\ outClosed' = TRUE
   /\ fpc' = "done"
-  /\ UNCHANGED <<mode, cancelled, sent, srcClosed, cur, last, delivered, cstop, seenClosed>>
+  /\ UNCHANGED <<mode, cancelled, sent, srcClosed, cur, last, delivered, cstop, seenClosed, xvars>>
 
 \* the steps the forwarder can take on its own (no partner needed)
-FwdInternal == FwdSetup \/ FwdSelCtx \/ FwdSelClosed \/ FwdMap \/ FwdSendCtx \/ FwdClose
+FwdInternal == FwdSetup \/ FwdSelCtx \/ FwdSelClosed \/ FwdMap \/ FwdRecv \/ FwdWaitCtx \/ FwdSendCtx \/ FwdClose
 
 \* state predicate: some FwdInternal step is possible under design d
 FwdCanStep(d) ==
   \/ fpc \in {"start", "map", "exit"}
   \/ fpc = "sel" /\ (cancelled \/ srcClosed)
+  \/ fpc = "wait" /\ (cancelled \/ hbuf[cur.i])
   \/ fpc = "send" /\ cancelled /\ d = "intended"
+
+\* ---------------------------------------------------------------- executor of event i
+\* runs the resolvers; the resolver of a "slow" event parks (visibly for the environment)
+ExecRun(i) ==
+  /\ epc[i] = "run"
+  /\ epc' = [epc EXCEPT ![i] = IF Parks(sent[i]) THEN "parked" ELSE "send"]
+  /\ UNCHANGED <<mode, cancelled, sent, srcClosed, fpc, cur, last, delivered, outClosed, cstop, seenClosed, hbuf>>
+
+\* handoff <- result; the goroutine ends.  Cap >= 1: the channel is the executor's own and this is
+\* the only send on it, so it never blocks.  Cap = 0: rendezvous with the forwarder waiting for
+\* exactly this executor.
+ExecSend(i) ==
+  /\ epc[i] = "send"
+  /\ epc' = [epc EXCEPT ![i] = "done"]
+  /\ IF Cap >= 1
+       THEN hbuf' = [hbuf EXCEPT ![i] = TRUE] /\ fpc' = fpc
+       ELSE fpc = "wait" /\ cur.i = i /\ fpc' = "send" /\ hbuf' = hbuf
+  /\ UNCHANGED <<mode, cancelled, sent, srcClosed, cur, last, delivered, outClosed, cstop, seenClosed>>
+
+ExecStep(i) == ExecRun(i) \/ ExecSend(i)
+
+\* state predicate: executor i can take a step when the hand-off channel has capacity cap
+ExecCanStepC(i, cap) ==
+  \/ epc[i] = "run"
+  \/ epc[i] = "send" /\ (cap >= 1 \/ (fpc = "wait" /\ cur.i = i))
+ExecCanStep(i) == ExecCanStepC(i, Cap)
+
+Parked == {i \in Evs : epc[i] = "parked"}
+\* executor i is not there (never started, or ended) or is held by the environment
+ExecGone(i)   == epc[i] \in {"idle", "done"}
+ExecAtEase(i) == epc[i] \in {"idle", "done", "parked"}
 
 \* ---------------------------------------------------------------- environment
 SrcClose ==
   /\ ~srcClosed
   /\ srcClosed' = TRUE
-  /\ UNCHANGED <<mode, cancelled, sent, fpc, cur, last, delivered, outClosed, cstop, seenClosed>>
+  /\ UNCHANGED <<mode, cancelled, sent, fpc, cur, last, delivered, outClosed, cstop, seenClosed, xvars>>
 
 ConsumerSeeClosed ==
   /\ outClosed /\ ~cstop /\ ~seenClosed
   /\ seenClosed' = TRUE
-  /\ UNCHANGED <<mode, cancelled, sent, srcClosed, fpc, cur, last, delivered, outClosed, cstop>>
+  /\ UNCHANGED <<mode, cancelled, sent, srcClosed, fpc, cur, last, delivered, outClosed, cstop, xvars>>
 
 ConsumerStop ==
   /\ ~cstop
   /\ cstop' = TRUE
-  /\ UNCHANGED <<mode, cancelled, sent, srcClosed, fpc, cur, last, delivered, outClosed, seenClosed>>
+  /\ UNCHANGED <<mode, cancelled, sent, srcClosed, fpc, cur, last, delivered, outClosed, seenClosed, xvars>>
 
 Cancel ==
   /\ ~cancelled
   /\ cancelled' = TRUE
-  /\ UNCHANGED <<mode, sent, srcClosed, fpc, cur, last, delivered, outClosed, cstop, seenClosed>>
+  /\ UNCHANGED <<mode, sent, srcClosed, fpc, cur, last, delivered, outClosed, cstop, seenClosed, xvars>>
+
+\* the parked resolver of event i returns
+Release(i) ==
+  /\ epc[i] = "parked"
+  /\ epc' = [epc EXCEPT ![i] = "send"]
+  /\ UNCHANGED <<mode, cancelled, sent, srcClosed, fpc, cur, last, delivered, outClosed, cstop, seenClosed, hbuf>>
 
 Next ==
   \/ FwdInternal
+  \/ \E i \in Evs : ExecStep(i)
   \/ \E c \in Classes : SrcEmit(c)
   \/ Deliver
   \/ SrcClose \/ ConsumerSeeClosed \/ ConsumerStop \/ Cancel
+  \/ \E i \in Evs : Release(i)
 
-\* the environment (source, consumer, canceller) is free; the forwarder is a running goroutine
-Spec     == Init /\ [][Next]_vars /\ WF_vars(FwdInternal)
-\* additionally: a consumer that has not stopped keeps receiving
-SpecRead == Spec /\ WF_vars(Deliver)
+\* the environment (source, consumer, canceller, releaser) is free; the forwarder and every
+\* started executor are running goroutines
+Spec     == Init /\ [][Next]_vars /\ WF_vars(FwdInternal) /\ \A i \in Evs : WF_vars(ExecStep(i))
+\* additionally: a consumer that has not stopped keeps receiving, and every resolver returns
+\* (without the latter a forwarder may wait for a parked executor for ever while the context is live)
+SpecRead == Spec /\ WF_vars(Deliver) /\ \A i \in Evs : WF_vars(Release(i))
 
 \* ---------------------------------------------------------------- safety
 \* delivered is the image under Execute of a prefix of the events, in source order:
@@ -189,7 +270,7 @@ PrefixInOrder ==
 NothingLost ==
   mode = "ok" =>
     /\ Len(sent) - Len(delivered) \in {0, 1}
-    /\ (Len(sent) - Len(delivered) = 1 /\ fpc \notin {"map", "send"}) => cancelled
+    /\ (Len(sent) - Len(delivered) = 1 /\ fpc \notin {"map", "wait", "send"}) => cancelled
 
 \* the result channel is closed only after the source closed or the context was cancelled
 \* (or, for a failed request, after its single error result)
@@ -204,10 +285,29 @@ ErrorOnce ==
     /\ (outClosed /\ ~cancelled) => delivered = <<ErrRes>>
     /\ (delivered = <<ErrRes>>) => fpc \in {"exit", "done"}
 
-\* a forwarder at rest under the intended design is gone once the context is cancelled
-RestAfterCancel == (cancelled /\ ~FwdCanStep("intended")) => fpc = "done"
+\* executors: one per event that was taken, started in event order; the result of an event is never
+\* delivered while its resolver is still held by the environment (only the context's error is);
+\* unless the context is cancelled there is at most one live executor, the one the forwarder waits for
+ExecInv ==
+  /\ \A i \in Evs : epc[i] # "idle" => i <= Len(sent)
+  /\ \A i \in Evs : epc[i] = "parked" => Parks(sent[i])
+  /\ \A i \in Evs : hbuf[i] => epc[i] = "done"
+  /\ \A i \in Evs : (epc[i] \in {"run", "parked"} /\ i <= Len(delivered)) => delivered[i] = Res(i, "ctxerr")
+  /\ \A i \in Evs : (~ExecGone(i) /\ ~cancelled) => (fpc = "wait" /\ cur.i = i)
 
-Safety == TypeOK /\ PrefixInOrder /\ NothingLost /\ ClosedOnlyAfter /\ ErrorOnce /\ RestAfterCancel
+\* the functional part (holds for every design)
+SafetyCore == TypeOK /\ PrefixInOrder /\ NothingLost /\ ClosedOnlyAfter /\ ErrorOnce /\ ExecInv
+
+\* the leak clause as a state predicate: once the context is cancelled, a state in which no process
+\* can take a step on its own - the forwarder as designed (intended: its send watches the context),
+\* the executors with the hand-off capacity as configured - is a state in which the forwarder has
+\* terminated and every executor has terminated, was never started, or is parked in a resolver that
+\* the environment has not released yet.  (Cap = 0 violates it: executor in "send", forwarder gone.)
+RestAfterCancel ==
+  (cancelled /\ ~FwdCanStep("intended") /\ \A i \in Evs : ~ExecCanStep(i))
+     => (fpc = "done" /\ \A i \in Evs : ExecAtEase(i))
+
+Safety == SafetyCore /\ RestAfterCancel
 
 \* nothing is delivered after the close; the close is final; results are never retracted
 AfterClose ==
@@ -216,8 +316,15 @@ AfterClose ==
      /\ \A j \in 1..Len(delivered) : delivered'[j] = delivered[j]]_vars
 
 \* ---------------------------------------------------------------- liveness
-\* after cancellation the forwarder goroutine does not stay blocked for ever
-NoLeak == cancelled ~> (fpc = "done")
+\* after cancellation no process started for the subscription stays blocked for ever: the forwarder
+\* terminates, and every executor terminates unless the environment holds its resolver (the
+\* property is re-evaluated in every later state, so after the last release all executors are gone)
+NoLeak == cancelled ~> (fpc = "done" /\ \A i \in Evs : ExecAtEase(i))
+\* the forwarder alone (does not depend on the releases at all)
+NoLeakFwd == cancelled ~> (fpc = "done")
+\* once every parked resolver has been released for good, everything is gone for good
+AllGone == fpc = "done" /\ \A i \in Evs : ExecGone(i)
+NoLeakReleased == (cancelled /\ [](Parked = {})) ~> [](AllGone)
 \* with a consumer that keeps reading, the channel is closed after source close / cancel
 ClosesWhenRead == (srcClosed \/ cancelled) ~> (outClosed \/ cstop)
 =============================================================================
